@@ -409,10 +409,15 @@ def _toposort(dsk, keys=None, returncycle=False, dependencies=None):
                         # Shorter cycles may exist.
                         priorities = {}
                         prev = nodes[-1]
-                        # Give priority to nodes that were seen earlier.
+                        # Give priority to nodes that were seen earlier.  A node can sit
+                        # on the stack more than once; number the popped entries with a
+                        # running counter (not ``len(priorities)``) so that priorities
+                        # stay pairwise distinct and the walk below strictly descends.
+                        npopped = 0
                         while nodes[-1] != nxt:
-                            priorities[nodes.pop()] = -len(priorities)
-                        priorities[nxt] = -len(priorities)
+                            priorities[nodes.pop()] = -npopped
+                            npopped += 1
+                        priorities[nxt] = -npopped
                         # We're going to get the cycle by walking backwards along dependents,
                         # so calculate dependents only for the nodes in play.
                         inplay = set(priorities)
